@@ -96,6 +96,12 @@ Proof. unfold unnamed_step. ap_tac. Qed.
 #[global] Hint Resolve ap_unnamed_step : ap.
 Lemma ap_via_union {Sc n key leaf} : (forall n', ap (leaf n')) -> ap (via_union Sc n key leaf).
 Proof. intro H. unfold via_union. destruct n; auto. ap_tac; auto. Qed.
+Lemma ap_unit_variant_null Sc n variant m : ap m -> ap (unit_variant_null Sc n variant m).
+Proof.
+  intro H. unfold unit_variant_null. destruct n; auto.
+  destruct (union_named Sc variants variant) as [[d k']|]; auto.
+  destruct (fnode_at Sc k') as [[]|]; auto. apply ap_write_varint.
+Qed.
 Lemma ap_named_step Sc n nm : ap (named_step Sc n nm).
 Proof. unfold named_step. ap_tac. Qed.
 #[global] Hint Resolve ap_named_step : ap.
@@ -302,7 +308,7 @@ Proof. intro H. unfold at_key. destruct (fnode_at Sc k); auto. apply ap_fail; re
 Theorem ser_ap Sc : forall v n, ap (ser Sc n v).
 Proof.
   induction v using sval_ind2; intro n0;
-    try (cbn [ser]; repeat (apply ap_via_union; intro); ap_tac; fail).
+    try (cbn [ser]; try apply ap_unit_variant_null; repeat (apply ap_via_union; intro); ap_tac; fail).
   - rewrite ser_SSeq. apply ap_via_union; intro. apply ap_seq_leaf.
     eapply Forall_impl; [|exact H]. intros v Hv k. now apply ap_at_key.
   - rewrite ser_STuple. apply ap_via_union; intro. apply ap_seq_leaf.
